@@ -100,6 +100,9 @@ func (v *uval) unitString() string {
 	if v.units == nil {
 		return "unknown"
 	}
+	if len(v.units) == 0 {
+		return "different units on different paths (no consistent reading)"
+	}
 	var s []string
 	for _, u := range v.units {
 		s = append(s, u.String())
@@ -148,19 +151,46 @@ func (ui *uInterp) report(pos token.Pos, format string, a ...interface{}) {
 	}
 }
 
+type uCond struct {
+	expr ast.Expr
+	vers map[types.Object]int // versions of the variables the condition mentions, at its definition
+}
+
 type uEnv struct {
-	info *types.Info
-	vars map[types.Object]*uval
-	rets [][]*uval
-	done bool
+	info  *types.Info
+	vars  map[types.Object]*uval
+	ver   map[types.Object]int   // bumped at every assignment
+	conds map[types.Object]uCond // boolean variables defined by a comparison
+	rets  [][]*uval
+	done  bool
 }
 
 func (e *uEnv) copyEnv() *uEnv {
-	n := &uEnv{info: e.info, vars: map[types.Object]*uval{}, rets: e.rets}
+	n := &uEnv{info: e.info, vars: map[types.Object]*uval{}, ver: map[types.Object]int{}, conds: map[types.Object]uCond{}, rets: e.rets}
 	for k, v := range e.vars {
 		n.vars[k] = v
 	}
+	for k, v := range e.ver {
+		n.ver[k] = v
+	}
+	for k, v := range e.conds {
+		n.conds[k] = v
+	}
 	return n
+}
+
+// condOf: the comparison a boolean variable stands for, if the variables it mentions are unchanged since.
+func (e *uEnv) condOf(o types.Object) (ast.Expr, bool) {
+	d, ok := e.conds[o]
+	if !ok {
+		return nil, false
+	}
+	for v, n := range d.vers {
+		if e.ver[v] != n {
+			return nil, false
+		}
+	}
+	return d.expr, true
 }
 
 func joinVal(a, b *uval) *uval {
@@ -224,7 +254,26 @@ func joinEnv(a, b *uEnv) *uEnv {
 	if b.done {
 		return a
 	}
-	out := &uEnv{info: a.info, vars: map[types.Object]*uval{}}
+	out := &uEnv{info: a.info, vars: map[types.Object]*uval{}, ver: map[types.Object]int{}, conds: map[types.Object]uCond{}}
+	for k, n := range a.ver {
+		out.ver[k] = n
+	}
+	for k, n := range b.ver {
+		if n > out.ver[k] {
+			out.ver[k] = n
+		}
+	}
+	// a variable assigned on one side only has a different version there: bump it so that stale conditions are dropped
+	for k := range out.ver {
+		if a.ver[k] != b.ver[k] {
+			out.ver[k]++
+		}
+	}
+	for k, d := range a.conds {
+		if d2, ok := b.conds[k]; ok && d2.expr == d.expr {
+			out.conds[k] = d
+		}
+	}
 	for k, v := range a.vars {
 		if w, ok := b.vars[k]; ok {
 			out.vars[k] = joinVal(v, w)
@@ -593,23 +642,21 @@ func (ui *uInterp) call(env *uEnv, x *ast.CallExpr) *uval {
 		case "Sin", "Cos", "Tan":
 			trigArg(args[0])
 			out := &uval{units: []unit{uOne}, lo: -1, hi: 1}
-			if name == "Tan" {
+			switch name {
+			case "Tan":
 				out.lo, out.hi = math.Inf(-1), math.Inf(1)
-			}
-			if name == "Cos" && args[0].lo >= -math.Pi/2-1e-9 && args[0].hi <= math.Pi/2+1e-9 {
-				out.lo = 0
-			}
-			if name == "Sin" && args[0].lo >= -1e-12 && args[0].hi <= math.Pi+1e-9 {
-				out.lo = 0
+			case "Cos":
+				out.lo, out.hi = trigRange(args[0].lo, args[0].hi, 0)
+			case "Sin":
+				out.lo, out.hi = trigRange(args[0].lo, args[0].hi, math.Pi/2)
 			}
 			return out
 		case "Sincos":
 			trigArg(args[0])
-			s := &uval{units: []unit{uOne}, lo: -1, hi: 1}
-			c := &uval{units: []unit{uOne}, lo: -1, hi: 1}
-			if args[0].lo >= -math.Pi/2-1e-9 && args[0].hi <= math.Pi/2+1e-9 {
-				c.lo = 0
-			}
+			s := &uval{units: []unit{uOne}}
+			c := &uval{units: []unit{uOne}}
+			s.lo, s.hi = trigRange(args[0].lo, args[0].hi, math.Pi/2)
+			c.lo, c.hi = trigRange(args[0].lo, args[0].hi, 0)
 			return &uval{tuple: []*uval{s, c}, lo: math.Inf(-1), hi: math.Inf(1)}
 		case "Asin", "Acos", "Atan":
 			pure(args[0])
@@ -725,7 +772,7 @@ func (ui *uInterp) call(env *uEnv, x *ast.CallExpr) *uval {
 // fn: abstract results of a repository function for the given arguments.
 func (ui *uInterp) fn(f *types.Func, args []*uval) []*uval {
 	fd, pkg := ui.p.Decl(f), ui.p.DeclPkg(f)
-	env := &uEnv{info: pkg.TypesInfo, vars: map[types.Object]*uval{}}
+	env := &uEnv{info: pkg.TypesInfo, vars: map[types.Object]*uval{}, ver: map[types.Object]int{}, conds: map[types.Object]uCond{}}
 	i := 0
 	if fd.Recv != nil {
 		// receivers are not tracked
@@ -780,7 +827,12 @@ func (ui *uInterp) assign(env *uEnv, lhs ast.Expr, v *uval, pos token.Pos) {
 		if l.Name == "_" {
 			return
 		}
-		env.vars[env.info.ObjectOf(l)] = v
+		o := env.info.ObjectOf(l)
+		env.vars[o] = v
+		if env.ver != nil {
+			env.ver[o]++
+			delete(env.conds, o)
+		}
 	case *ast.SelectorExpr:
 		// a store to X / Y of a point
 		cur := ui.expr(env, l)
@@ -793,6 +845,14 @@ func (ui *uInterp) assign(env *uEnv, lhs ast.Expr, v *uval, pos token.Pos) {
 // refine: narrow the interval of `id` by a comparison with a constant.
 func (ui *uInterp) refine(env *uEnv, cond ast.Expr, truth bool) {
 	switch c := ast.Unparen(cond).(type) {
+	case *ast.Ident:
+		if e, ok := env.condOf(env.info.ObjectOf(c)); ok {
+			ui.refine(env, e, truth)
+		}
+	case *ast.UnaryExpr:
+		if c.Op == token.NOT {
+			ui.refine(env, c.X, !truth)
+		}
 	case *ast.BinaryExpr:
 		if c.Op == token.LOR && !truth {
 			ui.refine(env, c.X, false)
@@ -899,6 +959,26 @@ func (ui *uInterp) stmt(env *uEnv, st ast.Stmt, results []types.Object, holder *
 			}
 			for i, l := range s.Lhs {
 				ui.assign(env, l, vals[i], s.TokPos)
+				if id, ok := l.(*ast.Ident); ok && (s.Tok == token.DEFINE || s.Tok == token.ASSIGN) && env.conds != nil {
+					if bt, ok := env.info.TypeOf(s.Rhs[i]).Underlying().(*types.Basic); ok && bt.Info()&types.IsBoolean != 0 {
+						vers := map[types.Object]int{}
+						ast.Inspect(s.Rhs[i], func(n ast.Node) bool {
+							if x, ok := n.(*ast.Ident); ok {
+								if o := env.info.ObjectOf(x); o != nil {
+									vers[o] = env.ver[o]
+								}
+							}
+							return true
+						})
+						env.conds[env.info.ObjectOf(id)] = uCond{expr: s.Rhs[i], vers: vers}
+						switch ui.decide(env, s.Rhs[i]) {
+						case 1:
+							env.vars[env.info.ObjectOf(id)] = &uval{units: []unit{uOne}, lo: 1, hi: 1, lit: true}
+						case -1:
+							env.vars[env.info.ObjectOf(id)] = &uval{units: []unit{uOne}, lo: 0, hi: 0, lit: true}
+						}
+					}
+				}
 			}
 		} else if len(s.Rhs) == 1 {
 			v := ui.expr(env, s.Rhs[0])
@@ -954,6 +1034,15 @@ func (ui *uInterp) stmt(env *uEnv, st ast.Stmt, results []types.Object, holder *
 			env = ui.stmt(env, s.Init, results, holder)
 		}
 		ui.expr(env, s.Cond)
+		switch ui.decide(env, s.Cond) {
+		case 1:
+			return ui.block(env, s.Body.List, results, holder)
+		case -1:
+			if s.Else != nil {
+				return ui.stmt(env, s.Else, results, holder)
+			}
+			return env
+		}
 		t := env.copyEnv()
 		ui.refine(t, s.Cond, true)
 		t = ui.block(t, s.Body.List, results, holder)
@@ -1065,4 +1154,113 @@ var geoSpecs = map[string]geoSpec{
 	"DestinationPoint":      {[]slotSpec{sLat, sLon, sDist, sBear}, []slotSpec{sLat, sLon}},
 	"BearingTo":             {[]slotSpec{sLat, sLon, sLat, sLon}, []slotSpec{{uDeg, axNone, 0, 360}}},
 	"RectFromCenter":        {[]slotSpec{sLat, sLon, sMeters}, []slotSpec{sLat, sLon, sLat, sLon}},
+}
+
+// decide: +1 when the intervals make the condition certainly true, -1 certainly false, 0 otherwise.
+func (ui *uInterp) decide(env *uEnv, cond ast.Expr) int {
+	switch c := ast.Unparen(cond).(type) {
+	case *ast.Ident:
+		if bt, ok := env.info.TypeOf(c).Underlying().(*types.Basic); ok && bt.Info()&types.IsBoolean != 0 {
+			if v, ok := env.vars[env.info.ObjectOf(c)]; ok && v != nil && v.lo == v.hi {
+				if v.lo == 1 {
+					return 1
+				}
+				if v.lo == 0 {
+					return -1
+				}
+			}
+		}
+		if e, ok := env.condOf(env.info.ObjectOf(c)); ok {
+			return ui.decide(env, e)
+		}
+	case *ast.UnaryExpr:
+		if c.Op == token.NOT {
+			return -ui.decide(env, c.X)
+		}
+	case *ast.BinaryExpr:
+		switch c.Op {
+		case token.LOR:
+			a, b := ui.decide(env, c.X), ui.decide(env, c.Y)
+			if a == 1 || b == 1 {
+				return 1
+			}
+			if a == -1 && b == -1 {
+				return -1
+			}
+			return 0
+		case token.LAND:
+			a, b := ui.decide(env, c.X), ui.decide(env, c.Y)
+			if a == -1 || b == -1 {
+				return -1
+			}
+			if a == 1 && b == 1 {
+				return 1
+			}
+			return 0
+		case token.LSS, token.GTR, token.LEQ, token.GEQ:
+			save := len(ui.issues)
+			a, b := ui.expr(env, c.X), ui.expr(env, c.Y)
+			ui.issues = ui.issues[:save]
+			if math.IsNaN(a.lo) || math.IsNaN(b.lo) {
+				return 0
+			}
+			lt := func(x, y *uval, strict bool) int { // x < y (strict) or x <= y
+				if strict {
+					if x.hi < y.lo {
+						return 1
+					}
+					if x.lo >= y.hi {
+						return -1
+					}
+				} else {
+					if x.hi <= y.lo {
+						return 1
+					}
+					if x.lo > y.hi {
+						return -1
+					}
+				}
+				return 0
+			}
+			switch c.Op {
+			case token.LSS:
+				return lt(a, b, true)
+			case token.LEQ:
+				return lt(a, b, false)
+			case token.GTR:
+				return lt(b, a, true)
+			case token.GEQ:
+				return lt(b, a, false)
+			}
+		}
+	}
+	return 0
+}
+
+// trigRange: the range of cos(x - shift) for x in [lo, hi] (shift 0: cos, π/2: sin), widened by one ulp-scale epsilon.
+func trigRange(lo, hi, shift float64) (float64, float64) {
+	if math.IsInf(lo, 0) || math.IsInf(hi, 0) || math.IsNaN(lo) || math.IsNaN(hi) || hi-lo >= 2*math.Pi {
+		return -1, 1
+	}
+	lo, hi = lo-shift, hi-shift
+	a, b := math.Cos(lo), math.Cos(hi)
+	mn, mx := math.Min(a, b), math.Max(a, b)
+	// critical points kπ inside [lo, hi]
+	for k := math.Ceil(lo/math.Pi - 1e-12); k*math.Pi <= hi+1e-12; k++ {
+		if math.Mod(math.Abs(k), 2) == 0 {
+			mx = 1
+		} else {
+			mn = -1
+		}
+	}
+	const eps = 1e-12
+	lo2, hi2 := math.Max(-1, mn-eps), math.Min(1, mx+eps)
+	// the sign at a zero crossing end point is exact in real arithmetic (cos(±π/2) = 0)
+	if mn > -1e-15 && lo2 < 0 {
+		lo2 = 0
+	}
+	if mx < 1e-15 && hi2 > 0 {
+		hi2 = 0
+	}
+	return lo2, hi2
 }
